@@ -490,6 +490,40 @@ pub fn run_check(prop: &dyn Property, tier_s: &str, cfg: &CheckConfig) -> i32 {
             total.aborted_other += hard_crashes.len() as u64;
         }
     }
+    let mut cross_process_compared = 0u64;
+    if prop.id() == "C06" {
+        let m = runs.min(if tier == Tier::Quick { 20_000 } else { 200_000 });
+        let (n, div) = cross_process_compare(cfg, prop.id(), tier_s, m);
+        cross_process_compared = n;
+        *total.faults.entry("process_hash_keys".to_string()).or_insert(0) += n;
+        if let Some((profile, i, k)) = div {
+            let seed = seed_for(cfg.batch_seed, prop.id(), i);
+            if let Some(sc) = prop.gen(seed, tier).into_iter().nth(k) {
+                let rf = ReplayFile {
+                    property: prop.id().into(),
+                    class: "process-divergence".into(),
+                    detail: "two fresh processes produced different solutions / conflict text for the same problem (std hash keys differ per process)".into(),
+                    seed,
+                    profile: profile.clone(),
+                    minimised: false,
+                    scenario: sc,
+                };
+                let path = write_replay(cfg, &rf, "-proc");
+                let bin = cfg.bins.iter().find(|(p, _)| *p == profile).map(|(_, b)| b.clone()).unwrap_or(self_bin.clone());
+                let outs = observe_in_processes(&bin, &path, 12);
+                let distinct: BTreeSet<&String> = outs.iter().collect();
+                if distinct.len() > 1 {
+                    println!("VIOLATION property={} replay={}", prop.id(), path);
+                    println!("  class=process-divergence profile={profile} seed={seed}");
+                    exit_code = exit_code.max(1);
+                    reported_classes.insert("process-divergence".into());
+                } else {
+                    eprintln!("harness error: cross-process divergence at index {i} did not recur in 12 fresh processes");
+                    exit_code = exit_code.max(2);
+                }
+            }
+        }
+    }
     for (what, n) in &known_hits {
         println!("KNOWN-FINDING: property={} {} ({} occurrences in this batch)", prop.id(), what, n);
     }
@@ -543,6 +577,7 @@ pub fn run_check(prop: &dyn Property, tier_s: &str, cfg: &CheckConfig) -> i32 {
             "raw_violations_seen": total.violations,
             "known_finding_hits": known_hits,
             "hard_crashes": hard_crashes.len(),
+            "cross_process_pairs_compared": cross_process_compared,
             "profiles": per_profile_runs,
             "determinism_rechecks": total.determinism_rechecks,
             "determinism_mismatches": total.determinism_mismatches,
@@ -592,4 +627,64 @@ fn minimise_in_subprocess(bin: &str, cfg: &CheckConfig, prop: &str, v: &Violatio
     let _ = std::fs::remove_file(&outp);
     let rf: ReplayFile = serde_json::from_str(&s).ok()?;
     Some(rf.scenario)
+}
+
+
+/// Run `<bin> observe <file>` in n fresh processes and collect the printed digests.
+pub fn observe_in_processes(bin: &str, path: &str, n: usize) -> Vec<String> {
+    let mut out = Vec::new();
+    for _ in 0..n {
+        if let Ok(o) = Command::new(bin).args(["observe", path]).stderr(Stdio::null()).output() {
+            out.push(String::from_utf8_lossy(&o.stdout).trim().to_string());
+        }
+    }
+    out
+}
+
+/// C06, "separate processes" half: the std `HashSet`s in conflict.rs are keyed per process and are not
+/// behind the salt seam, so the first `m` seeds are additionally observed in two fresh processes per
+/// profile and compared line by line. Returns (index, sub-index) of the first divergence.
+pub fn cross_process_compare(cfg: &CheckConfig, prop: &str, tier: &str, m: u64) -> (u64, Option<(String, u64, usize)>) {
+    let mut compared = 0u64;
+    for (profile, bin) in &cfg.bins {
+        let chunks = 4u64;
+        let per = m.div_ceil(chunks);
+        let mut handles = Vec::new();
+        for rep in 0..2 {
+            for c in 0..chunks {
+                let from = c * per;
+                let to = ((c + 1) * per).min(m);
+                let child = Command::new(bin)
+                    .args(["digest", prop, tier, &from.to_string(), &to.to_string()])
+                    .env("VERIF_SEED", cfg.batch_seed.to_string())
+                    .env("VERIF_DIGEST_OBSERVABLE", "1")
+                    .stdout(Stdio::piped())
+                    .stderr(Stdio::null())
+                    .spawn();
+                handles.push((rep, c, child));
+            }
+        }
+        let mut outs: BTreeMap<(u64, u64), String> = BTreeMap::new();
+        for (rep, c, child) in handles {
+            if let Ok(ch) = child {
+                if let Ok(o) = ch.wait_with_output() {
+                    outs.insert((rep, c), String::from_utf8_lossy(&o.stdout).to_string());
+                }
+            }
+        }
+        for c in 0..chunks {
+            let a = outs.get(&(0, c)).cloned().unwrap_or_default();
+            let b = outs.get(&(1, c)).cloned().unwrap_or_default();
+            for (la, lb) in a.lines().zip(b.lines()) {
+                compared += 1;
+                if la != lb {
+                    let mut it = la.split_whitespace();
+                    let i: u64 = it.next().and_then(|x| x.parse().ok()).unwrap_or(0);
+                    let k: usize = it.next().and_then(|x| x.parse().ok()).unwrap_or(0);
+                    return (compared, Some((profile.clone(), i, k)));
+                }
+            }
+        }
+    }
+    (compared, None)
 }
